@@ -273,7 +273,7 @@ def setup_tifffile():
     shims.instrument(tf)
 
 
-def _empty_cog(shape, g, block, fn=None):
+def _empty_cog(shape, g, block, fn=None, stub_in_replay=False):
     """tf._make_empty_cog(shape, uint8, g, blocksize=block) with TiffWriter recorded and the
     GeoTIFF tag rendering (a rasterio round trip) stubbed; the replay runs it unstubbed"""
     import sys
@@ -281,7 +281,7 @@ def _empty_cog(shape, g, block, fn=None):
 
     import odc.geo.cog._tifffile as tf
 
-    conc = symx.concrete_mode()
+    conc = symx.concrete_mode() and not stub_in_replay
     seen_gbox = []
     if not conc:
         import tifffile as real_tifffile
@@ -405,23 +405,29 @@ class _FakeDask:
 
     n = 0
 
-    def __init__(self, shape, chunksize, name=None):
+    def __init__(self, shape, chunksize, name=None, chunks=None):
         _FakeDask.n += 1
         self.shape, self.chunksize = tuple(shape), tuple(chunksize)
         self.name = name or f"src{_FakeDask.n}"
         self.ndim = len(self.shape)
         self.dtype = "uint8"
+        self._chunks = chunks  # explicit (possibly irregular) chunk table; chunksize is its per-axis maximum
 
     @property
     def chunks(self):
+        if self._chunks is not None:
+            return self._chunks
         out = []
         for N, c in zip(self.shape, self.chunksize):
             k = int((N + c - 1) // c)
-            out.append(tuple([c] * k))
+            out.append(tuple([c] * (k - 1) + [N - c * (k - 1)]))
         return tuple(out)
 
     def rechunk(self, chunks):
         return _FakeDask(self.shape, chunks, name=f"rechunk({self.name})")
+
+
+_LAST_DEPS: dict = {}
 
 
 class _FakeBag:
@@ -459,6 +465,7 @@ def _dask_stubs():
     class HighLevelGraph:
         @staticmethod
         def from_collections(name, dsk, dependencies=()):
+            _LAST_DEPS[name] = list(dependencies)
             return dsk
 
     hlg.HighLevelGraph = HighLevelGraph
@@ -526,6 +533,12 @@ def h_graph(ax, mode):
         src_chunks = (16, 16)
     data = _FakeDask(shape, src_chunks)
     xx = _XX(data, g, 1 if ax == "SYX" else 0)
+    if mode == "irregular_chunks":
+        # chunk table with the tile size as its MAXIMUM but not regular: (16, 8, 16) rows of a 40-row image
+        assume(And(ny == 40, nx == 16))
+        tab = {"YX": ((16, 8, 16), (16,)), "YXS": ((16, 8, 16), (16,), (ns,)), "SYX": ((1,) * ns, (16, 8, 16), (16,))}[ax]
+        data = _FakeDask(shape, src_chunks, chunks=tab)
+        xx = _XX(data, g, 1 if ax == "SYX" else 0)
     restore = _dask_stubs()
     saved = (tf._mk_tile_compressor, tf._pyramids_from_cog_metadata, interop.is_dask_collection, tf.MPUFileSink, tf.mpu_write, tf.ODCExtensionDa if hasattr(tf, "ODCExtensionDa") else None)
     sink = {}
@@ -566,7 +579,7 @@ def h_graph(ax, mode):
 
         def empty(shape_, dtype, gbox=None, **kw):
             kw = {k: v for k, v in kw.items() if k in ("blocksize",)}
-            m, _ = _empty_cog(shape_, gbox, kw["blocksize"], fn=orig_empty)
+            m, _ = _empty_cog(shape_, gbox, kw["blocksize"], fn=orig_empty, stub_in_replay=True)
             meta_holder["meta"] = m
             return m, memoryview(b"")
 
@@ -615,6 +628,22 @@ def h_graph(ax, mode):
                 ok = ok and block[1:] == (s_, y_, x_)
             ok = ok and enc == ("encoder", pl if ax == "SYX" else 0)
         prove(f"{b.name}:reads_the_block_of_its_tile", ok)
+    # the blocks the tasks read are tile-shaped: block (y, x) of the array handed to the graph IS tile (y, x)
+    import sys as _sys
+
+    hlg_deps = _sys.modules.get("dask.highlevelgraph")
+    for b in bags:
+        keys = sorted(b.dsk)
+        lvl = b.dsk[keys[0]][3][0]
+        m = levels[lvl]
+        (src_arr,) = _LAST_DEPS.get(b.name, [None])
+        yd = 1 if ax == "SYX" else 0
+        if src_arr is None:
+            prove(f"{b.name}:source_blocks_are_the_tiles", False)
+            continue
+        rows = src_arr.chunks[yd]
+        k_ = len(rows)
+        prove(f"{b.name}:source_blocks_are_the_tiles", And(k_ == m.chunked.y, *[rows[i_] == m.tile.y for i_ in range(k_ - 1)], rows[-1] == src_arr.shape[yd] - m.tile.y * (k_ - 1)))
     # write order: overviews (smallest first) before full resolution
     lv = [l_ for l_, _ in seq]
     prove("overviews_before_full_resolution_smallest_first", lv == sorted(lv, reverse=True))
@@ -711,7 +740,7 @@ OBLIGATIONS = [
        functions=("odc.geo.cog._tifffile._make_empty_cog", "odc.geo.cog._shared.CogMeta.chunked", "odc.geo.cog._tifffile._compress_tiles"),
        bounds="image sides 1..4096, block from grid", stubs=("tifffile.TiffWriter recorder", "geotiff_metadata recorder", "dask re-chunk contract: ceil(N/c) blocks per axis (the replay builds the real dask graph; dask.base.quote aliased to dask.core.quote, which this dask release moved)"),
        setup=setup_tifffile, timeout_ms=20000),
-    Ob("L11_task_graph", h_graph, fixed(dict(ax="YX", mode="x"), dict(ax="YXS", mode="x"), dict(ax="SYX", mode="per_plane"), dict(ax="SYX", mode="single_chunk")),
+    Ob("L11_task_graph", h_graph, fixed(dict(ax="YX", mode="x"), dict(ax="YXS", mode="x"), dict(ax="SYX", mode="per_plane"), dict(ax="SYX", mode="single_chunk"), dict(ax="YX", mode="irregular_chunks"), dict(ax="YXS", mode="irregular_chunks")),
        descr="save_cog_with_dask/_compress_tiles: distinct task names per (level, plane), task i compresses the source block of tile i, tiles labelled (level, plane, y, x); write order = overviews smallest first, then full resolution",
        functions=("odc.geo.cog._tifffile.save_cog_with_dask", "odc.geo.cog._tifffile._compress_tiles", "odc.geo.cog._shared.CogMeta.tidx"),
        bounds="image sides 1..64 (symbolic), 16-pixel tiles, layouts YX / YXS(3) / SYX(3 planes, or 2 in one chunk); dask token assumed to separate nothing (constant)",
